@@ -3969,6 +3969,10 @@ func (vm *Thread) rethrow(err value.Value, stackTrace *value.StackTrace) {
 		}
 
 		vm.restoreLastFrame()
+		// restoreLastFrame leaves the slot of the unwound call's return value on the caller's
+		// stack; no value is returned when an error propagates, so drop it, otherwise every
+		// error caught in a caller leaks one stack slot
+		vm.pop()
 	}
 }
 
